@@ -145,7 +145,18 @@ class G:
                 known = False
         steps = self.ch([1, 1, 2, 2, 3, 4]) if first else self.ch([0, 0, 1, 2])
         for _ in range(steps):
-            if known and isinstance(v, dict) and v and self.p(0.8):
+            if known and isinstance(v, dict) and v and not first and not self.core and self.p(0.12):
+                # a filter on the KEYS of a struct
+                k = self.ch(list(v.keys()))
+                safe = k.replace("-", ".")
+                form = self.ch(["keys == '%s'" % k, "keys == \"%s\"" % k, "keys in ['%s', 'zz']" % k, "keys == /^%s$/" % safe,
+                                "keys not in ['%s']" % k, "keys == 'zz-none'", "keys != '%s'" % k, "keys == /./"])
+                parts.append("[ " + self.kw(form.split(" ")[0]) + form[4:] + " ]")
+                if form.startswith(("keys == '%s'" % k, "keys == \"", "keys in", "keys == /^")):
+                    v = v[k]
+                else:
+                    known = False
+            elif known and isinstance(v, dict) and v and self.p(0.8):
                 r = self.r.random()
                 if r < 0.7 or first:
                     k = self.ch(list(v.keys()))
